@@ -16,6 +16,7 @@ LEAN = os.path.join(VERIF, "lean")
 GEN = os.path.join(LEAN, "ZCV", "Gen")
 REPO = os.environ.get("ZCV_REPO", "/repo")
 DRIVER = os.path.join(LEAN, ".lake", "build", "bin", "zcdrv")
+DRIVER2 = os.path.join(LEAN, ".lake", "build", "bin", "zcdrv2")     # runs the GENERATED code (Gen/Code*.lean), see Driver2.lean
 ALLOWED_AXIOMS = {"propext", "Classical.choice", "Quot.sound"}
 
 sys.path.insert(0, os.path.join(REPO, "src"))
@@ -27,6 +28,8 @@ TRUSTED_BASE = [
     "translator harness/zcv/extract.py (live regexes/tables -> Lean terms) and the Lean regex semantics standing for CPython sre on the supported subset",
     "correspondence harness: generators, S-expression codec, canonicalisers",
     "CPython string/int primitives mirrored by hand in ZCV/Base.lean (validated by correspondence only)",
+    "code translation harness/zcv/pytrans.py (Python AST -> Gen/Code*.lean) and its primitives ZCV/Py.lean: validated by the "
+    "'real function vs generated code' streams (driver zcdrv2); parameters: mapping.get, os.getenv, self attributes",
 ]
 
 
@@ -112,6 +115,14 @@ def ensure_driver(tie):
     return ok and os.path.exists(DRIVER)
 
 
+def ensure_driver2(tie):
+    """the driver of the generated code.  It is built from Gen/Code*.lean: when a function has left the translatable subset
+    (the translator then reported it and the file is stale) or the generated text does not compile, the build fails, the tie
+    records it, and the caller carries on with its other streams."""
+    ok = lake_build(["zcdrv2"], tie, "zcdrv2")
+    return ok and os.path.exists(DRIVER2)
+
+
 # (theorem names may end in primes: the name is everything between the first quote and the quote before " depends")
 _AX_RX = re.compile(r"'(\S+)' depends on axioms: \[([^\]]*)\]|'(\S+)' does not depend on any axioms")
 
@@ -169,7 +180,7 @@ def grep_forbidden(tie):
     return hits
 
 
-def driver_batch(requests, chunk=200000, prelude=()):
+def driver_batch(requests, chunk=200000, prelude=(), exe=None):
     """requests: list of python s-expressions; returns list of decoded answers.
     `prelude` requests (state-setting) are replayed at the start of every chunk; their answers are dropped."""
     out = []
@@ -177,7 +188,7 @@ def driver_batch(requests, chunk=200000, prelude=()):
     for i in range(0, max(len(requests), 1), chunk):
         part = prelude + requests[i:i + chunk]
         data = "\n".join(sexp.enc(r) for r in part) + "\n"
-        p = subprocess.run([DRIVER], input=data, stdout=subprocess.PIPE, stderr=subprocess.PIPE,
+        p = subprocess.run([exe or DRIVER], input=data, stdout=subprocess.PIPE, stderr=subprocess.PIPE,
                            text=True, encoding="utf-8")
         lines = p.stdout.split("\n")
         if lines and lines[-1] == "":
